@@ -15,6 +15,7 @@ import (
 func init() { register("C09", checkC09) }
 
 func checkC09(p *load.Program, r *kit.Report) {
+	importRules(p, r, "C17", "a header removed with its invalidated ancestor must become unknown to the lookups: every descendant branch leaves the list with it", 2, nil, "TRIM-SHAPE")
 	importRules(p, r, "C11", "lookups of pruned heights read the files saveMainBranch and Branch.Save wrote, at offsets computed from the same constants", 2,
 		func(o *kit.Obligation) bool {
 			return o.Rule != "MERGE-SHAPE" || strings.HasPrefix(o.Construct, "Branch.Save")
@@ -269,8 +270,26 @@ func checkFlagRule(p *load.Program, r *kit.Report) {
 				if !reach.Has(ret) || kit.ReturnErrClass(ret) == kit.ErrNonNil {
 					continue
 				}
+				// a merged return carries flag and error in two phis of one block: the flag that
+				// comes in together with a non-nil error is not an answer
+				errPreds := map[*ssa.BasicBlock]bool{}
+				if fp, ok := kit.RetOperand(ret, flagIdx).(*ssa.Phi); ok {
+					if ei := kit.ErrResultIndex(f); ei >= 0 {
+						if ep, ok := kit.RetOperand(ret, ei).(*ssa.Phi); ok && ep.Block() == fp.Block() {
+							for i, e := range ep.Edges {
+								pred := ep.Block().Preds[i]
+								if kit.ClassifyErr(e, pred.Instrs[len(pred.Instrs)-1]) == kit.ErrNonNil {
+									errPreds[pred] = true
+								}
+							}
+						}
+					}
+				}
 				for _, rv := range reach.Resolve(kit.RetOperand(ret, flagIdx), ret) {
 					if cb, isC := kit.ConstBool(rv.V); isC && !cb {
+						continue
+					}
+					if rv.At != nil && errPreds[rv.At.Block()] {
 						continue
 					}
 					at := rv.At
